@@ -1031,6 +1031,10 @@ impl RangeKey for RecordIdentifier {
 }
 
 fn system_time_now() -> u64 {
+    #[cfg(feature = "verif-hooks")]
+    if let Some(t) = crate::verif::wall_clock_micros() {
+        return t;
+    }
     SystemTime::now()
         .duration_since(SystemTime::UNIX_EPOCH)
         .expect("time drift")
